@@ -10,6 +10,9 @@ from common import qlit, blit, listlit
 
 TRANSLATORS = [("types_widths", "Widths")]
 MODELLED = [
+    "textbook definitions of degree, number of links, local / global "
+    "clustering, transitivity, average neighbours degree and shortest path "
+    "lengths (Model/GraphDefs.v)",
     "core/_ext/types.py + types.pxd (element widths), to_cy casts",
     "core/_ext/numerics.pyx: _local_cliquishness_4thorder / _5thorder",
     "unit-weight relation nsi_degree = degree + 1",
@@ -25,6 +28,12 @@ Definition check_cliq (c : list (list bool) * nat * list Q) : bool :=
   let '(A, order, xs) := c in
   let n := length A in
   all2 close (map (cliquishness n (mfun A) order) (seq 0 n)) xs.
+"""
+
+
+HEADER2 = """From Coq Require Import ZArith QArith List Bool Arith.
+From PV.Model Require Import GraphDefs.
+Import ListNotations.
 """
 
 
@@ -88,6 +97,42 @@ def correspondence(ctx):
         ctx.corr("cliquishness model != implementation", meta[i], None)
     ctx.traces += len(terms)
     ctx.stats["c_cliquishness"] = len(terms)
+    # the textbook definitions of Model/GraphDefs.v, evaluated inside Coq
+    terms, meta = [], []
+    with warnings.catch_warnings():
+        warnings.simplefilter("ignore")
+        for A, d, tag in gs:
+            if d or len(A) > 7:
+                continue
+            net = Network(adjacency=A, silence_level=3)
+            try:
+                pl = np.asarray(net.path_lengths(), float)
+                row = lambda v: listlit([qlit(float(x)) for x in v])
+                terms.append(
+                    "(" + ", ".join([
+                        bm(A),
+                        listlit([f"{int(x)}%nat" for x in net.degree()]),
+                        f"{int(net.n_links)}%nat",
+                        row(net.local_clustering()),
+                        qlit(float(net.global_clustering())),
+                        # 0/0 (no connected triple): the library reports
+                        # NaN, the model 0 by convention
+                        qlit(float(np.nan_to_num(net.transitivity()))),
+                        row(net.average_neighbors_degree()),
+                        listlit([listlit([f"({-1 if np.isinf(x) else int(x)})%Z"
+                                          for x in r]) for r in pl])]) + ")")
+                meta.append({"A": np.asarray(A).tolist()})
+            except Exception as e:
+                ctx.corr("basic measure raises", {"A": np.asarray(A).tolist(),
+                                                  "err": str(e)}, None)
+    fails = ctx.coq_failing("c03_basic", HEADER2, terms, "check_basic",
+                            chunk=100)
+    for i in fails or []:
+        ctx.corr("textbook definition (degree, links, clustering, "
+                 "transitivity, neighbour degree, path lengths) != "
+                 "implementation", meta[i], None)
+    ctx.traces += len(terms)
+    ctx.stats["c_basic_measures"] = len(terms)
 
 
 # --------------------------------------------------------------------------
